@@ -657,6 +657,15 @@ class NoteEvent(EventType, partial_events=(
         self['is_playing'] = True
 
 
+class RestEvent(EventType, partial_events=(
+        PitchKeys, AmplitudeKeys, DurationKeys, ServerKeys)):
+    type = 'rest'
+    is_playing = False
+
+    def play(self):
+        pass
+
+
 class MidiEvent(EventType, partial_events=(
         PitchKeys, AmplitudeKeys, DurationKeys, MidiKeys)):
     type = 'midi'
